@@ -390,7 +390,7 @@ def write_replay(prop, res, tier, extra=None):
 TIERS = {
     # runs, wall budget (s) for the search phase, determinism sample size
     "quick": {"C03": (900, 150, 12), "C09": (800, 150, 12), "C10": (400, 200, 12)},
-    "thorough": {"C03": (16000, 1500, 48), "C09": (24000, 1200, 48), "C10": (8000, 1800, 48)},
+    "thorough": {"C03": (60000, 1500, 48), "C09": (50000, 1500, 48), "C10": (20000, 1800, 48)},
 }
 
 
